@@ -1,5 +1,5 @@
 SPECIFICATION Spec
-INVARIANT AsBuiltReport
+INVARIANT SetterDropsHolds
 CHECK_DEADLOCK FALSE
 CONSTANT KeyMergesWsIntoHttp = FALSE
-CONSTANT SetterDropsTls = FALSE
+CONSTANT SetterDropsTls = TRUE
